@@ -459,7 +459,7 @@ func c09(r *core.Run) {
 			}
 		}
 		if !isQ {
-			r.Check(filtered, "S3", core.FuncName(sub), which+":covered-patterns-skipped", p.InstrPos(ss.site), "a pattern matched by another pattern of the list is not subscribed again", "the "+which+" subscribes every pattern without skipping those covered by another one: overlapping owned patterns are delivered more than once when no queue group is used")
+			r.Check(filtered, "S3", "<subscribe>", which+":covered-patterns-skipped", p.InstrPos(ss.site), "a pattern matched by another pattern of the list is not subscribed again", "the "+which+" subscribes every pattern without skipping those covered by another one: overlapping owned patterns are delivered more than once when no queue group is used")
 		}
 		// S4: the error travels from the invoke to subscribe's return
 		errRet := false
